@@ -136,7 +136,7 @@ def check_batch_returned_is_consumed(ctx, facts):
             ctx.violate("C01.1", F, "entry-returned-without-being-counted", b.relfile, p.line, "an entry can be pushed again without the counter having advanced")
 
 
-def check_read_next_commit(ctx, facts):
+def check_read_next_commit(ctx, facts, rid="C01.1"):
     b = facts.body("read_next")
     ctx.saw_body(b)
     F = common.short_fn(b.name)
@@ -158,7 +158,7 @@ def check_read_next_commit(ctx, facts):
         vsrc, _, _ = origins(b, site.node["rv"]["op"], stop_calls=[r"block::Block::read$"])
         reads = [o for o in vsrc if o.kind == "call" and o.what.endswith("block::Block::read")]
         if len(reads) != 1 or not b.dominates(reads[0].site.bb, site.bb):
-            ctx.violate("C01.1", F, "commit-not-from-read", b.relfile, site.line, "the committed cursor offset is not derived from the size consumed by the read that precedes it")
+            ctx.violate(rid, F, "commit-not-from-read", b.relfile, site.line, "the committed cursor offset is not derived from the size consumed by the read that precedes it")
             continue
         rd = reads[0].site
         e = expr(b, site.node["rv"]["op"])
@@ -166,9 +166,9 @@ def check_read_next_commit(ctx, facts):
         # Add(offset_arg_of_read, consumed)
         off_e = strip_refs(expr(b, rd.node["args"][1]))
         if e[0] == "Add" and (strip_refs(e[1]) == off_e or strip_refs(e[2]) == off_e):
-            ctx.ok("C01.1", F, "committed offset = read offset + consumed size of that read", b.relfile, site.line, es[:100])
+            ctx.ok(rid, F, "committed offset = read offset + consumed size of that read", b.relfile, site.line, es[:100])
         else:
-            ctx.violate("C01.1", F, "commit-arithmetic", b.relfile, site.line, "the committed offset is %s, expected <offset passed to Block::read> + consumed" % es[:100])
+            ctx.violate(rid, F, "commit-arithmetic", b.relfile, site.line, "the committed offset is %s, expected <offset passed to Block::read> + consumed" % es[:100])
         # all returns after the commit return Ok(Some(entry of that read))
         rets = [r for r in b.return_blocks() if r in b.reachable_after(site.bb) or r == site.bb]
         good_blocks = []
@@ -182,10 +182,10 @@ def check_read_next_commit(ctx, facts):
                     if any(o2.kind == "call" and o2.site is not None and o2.site.bb == rd.bb for o2 in esrc):
                         good_blocks.append(s2.bb)
         if rets and good_blocks and b.must_pass([site.bb], rets, good_blocks):
-            ctx.ok("C01.1", F, "after the commit every path returns Ok(Some(entry)) of the entry just read", b.relfile, site.line)
+            ctx.ok(rid, F, "after the commit every path returns Ok(Some(entry)) of the entry just read", b.relfile, site.line)
         else:
-            ctx.violate("C01.1", F, "commit-without-delivery", b.relfile, site.line, "the cursor is committed past an entry on a path that does not return that entry")
-    ctx.floor("C01.1", "checkpoint-guarded cursor commits in read_next", n, 2)
+            ctx.violate(rid, F, "commit-without-delivery", b.relfile, site.line, "the cursor is committed past an entry on a path that does not return that entry")
+    ctx.floor(rid, "checkpoint-guarded cursor commits in read_next", n, 2)
 
 
 def check_header_tables(ctx, facts):
